@@ -9,3 +9,4 @@ open Femio.C08
 #print axioms C08_counterexample_loc_write
 #print axioms C08_counterexample_overwrite
 #print axioms C08_counterexample_update_index
+#print axioms C08_update_spec
